@@ -60,7 +60,7 @@ def run(tier):
         "evaluations": p.stats["executions"], "distinct_nontrivial": len(idx),
         "rule": "one evaluation per (object, requested type) pair: %d objects (every concrete class alone, over an "
                 "IP/TCP/Raw tail, under Ethernet+802.1Q, under RadioTap+QoS data+SNAP, plus field states that must not "
-                "change identity and 5 PDUCacher wrappers) x %d layer types with a flag; all pairs are distinct; the "
+                "change identity, RawPDU objects holding no bytes, objects of user-defined classes and 5 PDUCacher wrappers) x %d requestable types (every shipped class with a flag and 80 user-defined classes, flags USER_DEFINED_PDU + 0..79); all pairs are distinct; the "
                 "relation is finite and enumerated completely for these objects" % (len(objs), len(types)),
         "objects": len(objs), "types": len(types), "header_classes_covered": len(hdr),
         "known_finding_pairs": p.stats["rejected"] - len(v.violations),
